@@ -6,6 +6,7 @@ package main
 // panics. A panic is a construct, so "for every input" becomes "on every path".
 
 import (
+	"go/constant"
 	"fmt"
 	"go/ast"
 	"go/token"
@@ -362,7 +363,10 @@ func (t *totality) slice(fb funcBody, e *ast.SliceExpr, f *facts, pe pathEnv) {
 			return
 		}
 		if hasPath {
-			if _, ok := lenMinus(pe, b, xp, f); ok {
+			if k, ok := lenMinus(pe, b, xp, f); ok {
+				if k > need {
+					need = k // x[:len(x)-k] and x[len(x)-k:] need len(x) >= k
+				}
 				return
 			}
 		}
@@ -385,6 +389,10 @@ func (t *totality) slice(fb funcBody, e *ast.SliceExpr, f *facts, pe pathEnv) {
 		}
 		if why, ok := trustedIndex[key]; ok {
 			c.OK(rule, key, e.Pos(), "contract: "+why)
+			return
+		}
+		if min, attained, ok := t.builderText(fb, e.X); ok && attained && min < need {
+			c.Bad(rule, key, e.Pos(), fmt.Sprintf("slice bounds need len(%s) >= %d, but it is the text of a builder that receives only %d byte(s) outside loops over the input: with an empty input the bound is out of range", types.ExprString(e.X), need, min))
 			return
 		}
 		if t.roots != nil && !t.roots.rooted(e.X, 0) {
@@ -589,4 +597,130 @@ func (t *totality) negRecursion() {
 		})
 	}
 	c.OK(rule, "self-calls examined", 0, fmt.Sprintf("%d direct self-calls in scope, %d on a negated parameter", n, bad))
+}
+
+// builderText: the sliced value is the text of a local strings.Builder or
+// bytes.Buffer (x := b.String()). It returns the number of bytes the function
+// writes to that builder unconditionally, and whether every other write sits
+// in a `for range` over input data (so that the empty input leaves exactly
+// the unconditional bytes).
+func (t *totality) builderText(fb funcBody, x ast.Expr) (min int, attained bool, ok bool) {
+	p := t.c.P
+	id := identOf(x)
+	if id == nil || t.roots == nil {
+		return 0, false, false
+	}
+	def, has := t.roots.defs[p.Info.ObjectOf(id)]
+	if !has {
+		return 0, false, false
+	}
+	call, isCall := ast.Unparen(def).(*ast.CallExpr)
+	if !isCall || len(call.Args) != 0 {
+		return 0, false, false
+	}
+	sel, isSel := call.Fun.(*ast.SelectorExpr)
+	if !isSel || sel.Sel.Name != "String" {
+		return 0, false, false
+	}
+	bid := identOf(sel.X)
+	if bid == nil {
+		return 0, false, false
+	}
+	bobj := p.Info.ObjectOf(bid)
+	if bobj == nil || bobj.Parent() == p.Types.Scope() {
+		return 0, false, false
+	}
+	ts := p.TypeStr(bobj.Type())
+	if ts != "strings.Builder" && ts != "bytes.Buffer" && ts != "*strings.Builder" && ts != "*bytes.Buffer" {
+		return 0, false, false
+	}
+	attained = true
+	var walk func(list []ast.Stmt, inDataLoop, cond bool)
+	usesB := func(n ast.Node) bool {
+		found := false
+		ast.Inspect(n, func(m ast.Node) bool {
+			if i, ok := m.(*ast.Ident); ok && p.Info.ObjectOf(i) == bobj {
+				found = true
+			}
+			return !found
+		})
+		return found
+	}
+	walk = func(list []ast.Stmt, inDataLoop, cond bool) {
+		for _, s := range list {
+			if s.Pos() <= x.Pos() && x.End() <= s.End() {
+				continue // the statement holding the slice expression itself
+			}
+			if !usesB(s) {
+				// an early exit (the empty input may leave here) ends the argument
+				ast.Inspect(s, func(m ast.Node) bool {
+					switch m.(type) {
+					case *ast.ReturnStmt, *ast.BranchStmt:
+						attained = false
+					case *ast.CallExpr:
+						if t.c.P.isPanicCall(&ast.ExprStmt{X: m.(*ast.CallExpr)}) {
+							attained = false
+						}
+					}
+					return true
+				})
+				continue
+			}
+			switch st := s.(type) {
+			case *ast.RangeStmt:
+				if t.roots.rooted(st.X, 0) {
+					walk(st.Body.List, true, cond)
+				} else {
+					attained = false
+				}
+				continue
+			case *ast.BlockStmt:
+				walk(st.List, inDataLoop, cond)
+				continue
+			case *ast.DeclStmt:
+				continue
+			case *ast.AssignStmt, *ast.ExprStmt:
+				// a write: b.WriteString("const") / b.WriteByte / b.WriteRune, or the
+				// final b.String()
+				n := -1
+				ast.Inspect(st, func(m ast.Node) bool {
+					c, ok := m.(*ast.CallExpr)
+					if !ok {
+						return true
+					}
+					s2, ok := c.Fun.(*ast.SelectorExpr)
+					if !ok || identOf(s2.X) == nil || p.Info.ObjectOf(identOf(s2.X)) != bobj {
+						return true
+					}
+					switch s2.Sel.Name {
+					case "String", "Len":
+						if n < 0 {
+							n = 0
+						}
+					case "WriteByte", "WriteRune":
+						n = 1
+					case "WriteString":
+						if tv, ok := p.Info.Types[c.Args[0]]; ok && tv.Value != nil && tv.Value.Kind() == constant.String {
+							n = len(constant.StringVal(tv.Value))
+						} else {
+							n = 0
+						}
+					default:
+						n = -2
+					}
+					return false
+				})
+				switch {
+				case n == -2 || n == -1:
+					attained = false // the builder escapes or is used in a way not followed
+				case !inDataLoop && !cond:
+					min += n
+				}
+				continue
+			}
+			attained = false // an if, switch, plain for: whether it writes depends on more than emptiness
+		}
+	}
+	walk(fb.Body.List, false, false)
+	return min, attained, true
 }
